@@ -57,7 +57,18 @@ if ok:
     for f in os.listdir(mdir):
         if os.path.isfile(os.path.join(mdir, f)):
             shutil.copy(os.path.join(mdir, f), dst)
+    old = None
+    if os.path.exists(os.path.join(dst, "meta.json")):
+        try:
+            old = json.load(open(os.path.join(dst, "meta.json")))
+        except Exception:
+            old = None
     meta["confirmed_by_me"] = ran
+    hist = (old or {}).get("history", [])
+    if old and old.get("check_result"):
+        hist.append(old["check_result"].get("lines"))
+    if hist:
+        meta["history"] = hist
     meta["breaks_property"] = pid
     if chk:
         if "replay" in chk:
